@@ -130,7 +130,7 @@ def run(ctx):
     ctx.coverage.update({
         "evaluations": len(delays) + len(signs) + len(lives),
         "distinct_nontrivial": len({d["lifetime_ns"] for d in delays}) + len(signs) + len(lives),
-        "rule": "renewal delay of the real code (uasc.renewalDelay via hook) for boundary lifetimes (1 ms .. 2^32-1 ms, the old truncation boundaries 1.333 s / 2 s / 2.667 s / 4 s, odd nanosecond values) + seeded random lifetimes, compared with go_renewalDelay inside Coq; live channels with lifetimes 400 ms and 1000 ms renewing for 1.9 s under a continuous request load; the former renewal-window schedule (the renewal is now held back) and a renewal between two requests forced on a Basic256Sha256/Sign channel",
+        "rule": "renewal delay of the real code (uasc.renewalDelay via hook) for boundary lifetimes (1 ms .. 2^32-1 ms, the old truncation boundaries 1.333 s / 2 s / 2.667 s / 4 s, odd nanosecond values) + seeded random lifetimes, compared with go_renewalDelay inside Coq; live channels with lifetimes 400 ms and 1000 ms renewing for 1.9 s under a continuous request load, and with the server's clock 500 ms ahead / 400 ms behind (createdAt shifted, lifetime 1000 ms); the former renewal-window schedule (the renewal is now held back) and a renewal between two requests forced on a Basic256Sha256/Sign channel",
         "samples": delays[:2] + [{"live": lv["lifetime_ms"], "opn_at_ms": lv["opn_at_ms"]} for lv in lives] + [{"scenario": c["scenario"], "results": c["results"], "server_errors": c.get("server_errors")} for c in signs],
         "renewal_gaps_ms": gaps_all,
         "live_runs_overloaded": [lv["lifetime_ms"] for lv in lives if lv.get("stall_ms", 0.0) > 40.0],
